@@ -106,7 +106,12 @@ def main():
             rules_hit.add(v)
         if sig == "UNSUPPORTED":
             n_unsup += 1
-            continue
+            if tier != "quick":
+                continue
+            # quick tier: its units are enumerated by TLC (no random choice) and none of them is answered 'not implemented'
+            # on the pinned commit + fixes, so P9999 in place of a verdict is judged like any other wrong answer
+            # (the same excuse hid seeded change C07-8 in C07); the thorough tier's pairs of edits keep the 10 % budget
+            sig = ("valid-unit-rejected:P9999" if not rec["violated"] else "wrong-code:%s:reported=P9999" % rec["violated"][0])
         if sig:
             rep.add(sig, labels=labels_of(rec),
                     detail={"edits": rec["edits"], "violated": rec["violated"], "expected_codes": rec["codes"],
